@@ -392,6 +392,10 @@ def gen_cases(rng, tier):
     for h, cls in hs:
         strict = h >= 0
         out.append(case(cls, "coinbase_txin", b"", b"\xff" * 4, h, strict=strict))
+        if h > 2 ** 33:
+            # coinbase_tx computes 2**(h // interval): beyond ~2^33 that integer has gigabytes (MemoryError in Python,
+            # an idealised unbounded integer in the model) -- resource limits are not modelled, heights < 2^31 are
+            continue
         if cls == "height-sweep" and T and h % 7:
             out.append(case(cls, "coinbase_tx", b"", b"\x51", None, h, bool(h & 1), None, strict=strict))
             continue
@@ -535,13 +539,15 @@ def _check_coinbase(raw, cs, spk, reward, h, regtest, wroot):
             return "coinbase claims %d, more than the subsidy %d of height %d (regtest=%s)" % (value, sub, h, regtest)
     if reward is not None and value != reward:
         return "coinbase claims %d, not the given reward %d" % (value, reward)
-    commits = [s for (_, s) in d["outs"] if s[:6] == COMMIT_HDR and len(s) >= 38]
+    commits = [s for (_, s) in d["outs"] if s[:1] == b"\x6a" and COMMIT_HDR[2:] in s[:10]]
     supplied = bool(wroot)
     if supplied:
         if len(d["outs"]) != 2 or len(commits) != 1 or d["outs"][1] != (0, commits[0]):
             return "witness root supplied but the outputs are not [payout, (0, commitment)]"
         if len(wroot) == 32 and commits[0] != COMMIT_HDR + wroot:
             return "commitment output %s is not 6a24aa21a9ed + the supplied commitment hash" % commits[0].hex()
+        if not commits[0].endswith(COMMIT_HDR[2:] + wroot):
+            return "commitment output does not carry aa21a9ed + the supplied value"
         if d["wits"] != [[RESERVED]]:
             return "witness root supplied but the coinbase witness is not the single 32-byte reserved value"
     else:
@@ -774,6 +780,7 @@ def coq_equation(c, mr):
         return "c15_coinbase_txin %s %s %s = %s" % (coq_bytes(a[0]), coq_bytes(a[1]), o(a[2]), coq_result(mr))
     if op == "coinbase_tx" and len(a[0]) <= 110 and len(a[1]) <= 40 and (a[5] is None or len(a[5]) <= 80) \
             and (a[3] is None or abs(a[3]) < 2 ** 64):
+        # (c15_coinbase_tx is the [floordiv_pow2_fast] instance, so large heights are cheap in vm_compute as well)
         return "c15_coinbase_tx %s %s %s %s %s %s = %s" % (coq_bytes(a[0]), coq_bytes(a[1]), o(a[2]), o(a[3]), coq_lit(a[4]),
                                                             o(a[5]), coq_result(mr))
     if op == "block_header":
